@@ -16,7 +16,7 @@ BUDGET = {"quick": 150, "thorough": 1500}
 ANCHORED = ["_merge_columns", "_validate_and_reformat_input", "InterpolatedThresholder._pmf_predict", "UtilityParity.load_data"]
 RULE = ("feature tables with 2..3 string columns over alphabets containing ',', '\\\\', '\\\\,', '\\\\\\\\', empty strings, inner "
         "spaces and numeric-looking values ('1','1.0','01'), seeded with tuples built so that naive joins collide ('a,b'+'c' vs "
-        "'a'+'b,c'; 'a\\\\'+'b' vs 'a'+'\\\\b'); given as DataFrame / 2-D ndarray / list of lists. moments: the partition induced by "
+        "'a'+'b,c'; 'a\\\\'+'b' vs 'a'+'\\\\b'); given as DataFrame / 2-D ndarray / list of lists; ~15% numeric tables (float64/int64 values that differ beyond the 6th..16th significant digit). moments: the partition induced by "
         "DemographicParity (sensitive and control columns), EqualizedOdds and BoundedGroupLoss is recovered through the public "
         "signed_weights/index and compared with the tuple partition and with MetricFrame's (recording metric); GridSearch / "
         "ExponentiatedGradient fitted end to end with the table must record the constraint values of the true tuple groups. thresholder: "
